@@ -24,7 +24,8 @@ CLAIM = ('Whenever an output encoding is requested the declaration filter runs f
          'rewritten) and no token is lost; every piece of text or attribute value is encoded with the handler '
          'that replaces unencodable characters by references that decode back to them, and markup is encoded '
          'strictly. A declaration is recorded as found only on paths that rewrote or injected one; the http- '
-         'equiv flag is reset for every meta token.')
+         'equiv flag is reset for every meta token.'
+         " The meta arm is evaluated on attribute lists in both orders; the declared label is the one passed in, unmodified; tokens the filter makes up carry a namespace. Known findings: the bytes come from Python's codec of the label as passed, chunk by chunk (a BOM per chunk for utf-16), and raw-text elements get references that no reader decodes.")
 NOT_DECIDED = ("that the bytes decode to the same tree (prescan, re-parse, codecs); streams without a head end tag; labels "
                "that codecs.lookup and the reading side resolve differently.")
 MODULES = ["filters/inject_meta_charset.py", "serializer.py", "constants.py"]
